@@ -21,7 +21,7 @@ func XMultiSameMethod() *spec.Spec {
 
 // Extended returns the extended families (everything beyond the documented core combinations).
 func Extended(thorough bool) []*spec.Spec {
-	out := []*spec.Spec{XMultiSameMethod(), XCrossFile(), XTwoServiceFiles(), XTimestampCards(), XTimestampCardsFmt(), XEmptyOrders(), XOneofSiblings(), XSharedMethodHeader(), XQuotedHeaderTexts(), XQuotedAnnotationValues(), XForeignResponse(), XSameNamedNestedEnums(), XOneofVariantShapes(), XInt64Cards(), XHeaderNameShapes(), XParamNameClashes(), XHeaderOverrideShapes()}
+	out := []*spec.Spec{XMultiSameMethod(), XCrossFile(), XTwoServiceFiles(), XTimestampCards(), XTimestampCardsFmt(), XEmptyOrders(), XOneofSiblings(), XSharedMethodHeader(), XQuotedHeaderTexts(), XQuotedAnnotationValues(), XForeignResponse(), XSameNamedNestedEnums(), XOneofVariantShapes(), XInt64Cards(), XHeaderNameShapes(), XParamNameClashes(), XHeaderOverrideShapes(), XUnwrapWrapperShapes()}
 	out = append(out, XAnnotationCards()...)
 	out = append(out, XIdentifierShapes()...)
 	out = append(out, CtxSpecs()...)
@@ -473,4 +473,21 @@ func XHeaderOverrideShapes() *spec.Spec {
 		rpc("BothRelaxed", id("string", "", false), n("", "", false)),
 	).H(id("string", "uuid", true), n("integer", "", true))}}
 	return withCell(spec.One("x_header_override_shapes", f), "ext/unit=header_override_shapes", "extended", "valid")
+}
+
+// XUnwrapWrapperShapes: the wrapper-shape family of map-value unwrap - the value message of the map carries the unwrap field and
+// {nothing else, a scalar sibling, a message sibling}, for message and for scalar elements (only the unwrap field is used as the
+// map value; the documentation says the other fields are dropped).
+func XUnwrapWrapperShapes() *spec.Spec {
+	f := &spec.File{Messages: []*spec.Message{
+		spec.M("Bar", spec.F("symbol", "string"), spec.F("price", "double")),
+		spec.M("BarsOnly", spec.Msg("bars", "Bar").Rep().Unw()),
+		spec.M("BarsPage", spec.Msg("bars", "Bar").Rep().Unw(), spec.F("next_token", "string")),
+		spec.M("BarsMeta", spec.Msg("bars", "Bar").Rep().Unw(), spec.Msg("first", "Bar")),
+		spec.M("NumsOnly", spec.F("nums", "int32").Rep().Unw()),
+		spec.M("NumsPage", spec.F("nums", "int32").Rep().Unw(), spec.F("tag", "string")),
+		spec.M("WrapperShapes", spec.F("id", "string"), spec.Msg("only", "BarsOnly").Map(), spec.Msg("pages", "BarsPage").Map(), spec.Msg("metas", "BarsMeta").Map(),
+			spec.Msg("nums", "NumsOnly").Map(), spec.Msg("num_pages", "NumsPage").Map()),
+	}, Services: []*spec.Service{EchoService("WrapperShapeService", "WrapperShapes")}}
+	return withCell(spec.One("x_unwrap_wrapper_shapes", f), "ext/unit=unwrap_wrapper_shapes", "extended", "valid", "codec")
 }
